@@ -36,6 +36,9 @@ func miscRules() []*Rule {
 		{ID: "ERR-3", Props: []string{"C12"}, Min: 4,
 			Doc: "latched errors are sticky: a captured error cell written inside a callback is only ever assigned a value established non-nil",
 			Run: runErr3},
+		{ID: "ERR-6", Props: []string{"C12", "C01", "C02", "C19"}, Min: 6,
+			Doc: "a latched error comes out: once the callback that can write an error cell has been handed over, the owner returns a possibly-nil error only after testing the cell (or returns the cell itself)",
+			Run: runErr6},
 		{ID: "SKIP-2", Props: []string{"C12", "C02"}, Min: 1,
 			Doc: "the per-entry `found` collector of the WITHOUT ROWID adapters is fresh for every index entry",
 			Run: runSkip2},
@@ -259,7 +262,13 @@ func runKey(c *Ctx) {
 		}
 		coll := eventsOf(lp, "store", "Collate")
 		low := eventsOf(lp, "call", "strings.ToLower")
-		named := strings.Contains(ls, `call:strings.ToLower != ""`) && !strings.Contains(ls, `¬(call:strings.ToLower != "")`)
+		// however the test is spelled (`x != ""`, `!(x == "")`)
+		named := false
+		for _, l := range lp.Lits {
+			if reOrd.ReplaceAllString(l.Subject, "") == "call:strings.ToLower" && l.C == `""` && (l.Op == token.EQL || l.Op == token.NEQ) {
+				named = (l.Op == token.NEQ) == l.Val
+			}
+		}
 		if len(low) != 1 || gen(low[0].Args[0]) != el+".Collate" {
 			problems = append(problems, "the collation consulted is not index column i's")
 		}
@@ -270,7 +279,8 @@ func runKey(c *Ctx) {
 			if len(coll) != 1 || coll[0].Val != "call:strings.ToLower" || !strings.HasSuffix(gen(coll[0].Base), "[i]") {
 				problems = append(problems, "the key column does not carry the index column's collation")
 			}
-		} else if len(coll) != 0 {
+		} else if len(coll) != 0 && !(len(coll) == 1 && coll[0].Val == `const:""` && strings.HasSuffix(gen(coll[0].Base), "[i]")) {
+			// (storing the empty name into the fresh key column is storing nothing)
 			problems = append(problems, "a collation is stored although the index column names none")
 		}
 		vs := eventsOf(lp, "store", "V")
@@ -709,11 +719,30 @@ func runChomp(c *Ctx) {
 		}
 		c.Check(good, "ChompRowid", fn.Pos(), "rowid = last field (int64), record = the fields before it, empty records rejected")
 	}
-	for _, name := range []string{"sqlittle.indexedSelect$1", "sqlittle.indexedSelectEq$1"} {
-		cl := findFn(p, name)
-		if cl == nil {
-			c.Undecided("anchor "+name, token.NoPos, "not found")
+	for _, outerName := range []string{"sqlittle.indexedSelect", "sqlittle.indexedSelectEq"} {
+		name := outerName + "$1"
+		outer := findFn(p, outerName)
+		if outer == nil {
+			c.Undecided("anchor "+outerName, token.NoPos, "not found")
 			continue
+		}
+		// the adapter: the function value handed to the index scan — a closure of the function itself or one built
+		// by a factory around the same values
+		cl, boundTo := scanAdapter(p, outer)
+		if cl == nil {
+			c.Undecided("anchor "+name, token.NoPos, "not found: no closure (direct or from a factory) is handed to the index scan of %s", outerName)
+			continue
+		}
+		producedBy := func(term, callee string) bool {
+			if !strings.HasPrefix(term, "fv:") {
+				return false
+			}
+			v := boundTo(strings.TrimPrefix(term, "fv:"))
+			if e, ok := v.(*ssa.Extract); ok && e.Index == 0 {
+				v = e.Tuple
+			}
+			call, ok := v.(*ssa.Call)
+			return ok && call.Call.StaticCallee() != nil && p.FnKey(call.Call.StaticCallee()) == callee
 		}
 		paths, _ := EnumLits(cl.Blocks[0], 0, TabOpts{Termer: t, EventOf: callEvents(p)})
 		n := 0
@@ -726,8 +755,8 @@ func runChomp(c *Ctx) {
 			ch := eventsOf(lp, "call", "db.ChompRowid")
 			rl := eventsOf(lp, "call", "(*db.Table).Rowid")
 			tr := eventsOf(lp, "call", "sqlittle.toRow")
-			good := len(ch) == 1 && ch[0].Args[0] == "p:r" && len(rl) == 1 && rl[0].Args[0] == "fv:tab" && rl[0].Args[1] == "call:db.ChompRowid#0" &&
-				len(tr) == 1 && tr[0].Args[0] == "call:db.ChompRowid#0" && tr[0].Args[1] == "fv:ci" && tr[0].Args[2] == "call:(*db.Table).Rowid#0" &&
+			good := len(cl.Params) == 1 && len(ch) == 1 && ch[0].Args[0] == "p:"+cl.Params[0].Name() && len(rl) == 1 && producedBy(rl[0].Args[0], "(*db.Database).Table") && rl[0].Args[1] == "call:db.ChompRowid#0" &&
+				len(tr) == 1 && tr[0].Args[0] == "call:db.ChompRowid#0" && producedBy(tr[0].Args[1], "sqlittle.toColumnIndexRowid") && tr[0].Args[2] == "call:(*db.Table).Rowid#0" &&
 				cbs[0].Args[0] == "call:sqlittle.toRow"
 			c.Check(good, name+" delivers", cl.Pos(), "index entry → ChompRowid → Table.Rowid(that rowid) → toRow(rowid, columns, table row) → user callback")
 		}
@@ -735,7 +764,6 @@ func runChomp(c *Ctx) {
 			c.Fail(name+" delivers", cl.Pos(), "the adapter never calls the user callback")
 		}
 		// the outer function scans the named index and looks rows up in the schema's table
-		outer := cl.Parent()
 		opaths, _ := EnumLits(outer.Blocks[0], 0, TabOpts{Termer: t, EventOf: callEvents(p)})
 		for _, lp := range opaths {
 			if !cleanPath(lp) || lp.Exit == nil {
@@ -777,7 +805,7 @@ func runChomp(c *Ctx) {
 func runErr3(c *Ctx) {
 	p := c.P
 	for _, fn := range p.ModFuncs() {
-		if !errPackages[p.PkgShort(fn)] || fn.Parent() == nil || !p.Reachable(fn) {
+		if !errFn(p, fn) || fn.Parent() == nil || !p.Reachable(fn) {
 			continue
 		}
 		n := 0
@@ -821,6 +849,275 @@ func runErr3(c *Ctx) {
 			}
 		}
 	}
+}
+
+// runErr6: the owner's half of the latch. A callback that cannot return an error (sort.Search's predicate, a row
+// callback) parks it in a captured cell; it is the owner's job to look at the cell before it reports success.
+func runErr6(c *Ctx) {
+	p := c.P
+	for _, fn := range p.ModFuncs() {
+		if !errFn(p, fn) || !p.Reachable(fn) {
+			continue
+		}
+		for _, in := range instrs(fn) {
+			cell, ok := in.(*ssa.Alloc)
+			if !ok || !cell.Heap || !isErrorType(cell.Type().(*types.Pointer).Elem()) {
+				continue
+			}
+			// closures that write the cell
+			var mcs []*ssa.MakeClosure
+			for _, r := range *cell.Referrers() {
+				mc, ok := r.(*ssa.MakeClosure)
+				if !ok {
+					continue
+				}
+				cf := mc.Fn.(*ssa.Function)
+				for i, b := range mc.Bindings {
+					if b != cell {
+						continue
+					}
+					for _, cin := range instrs(cf) {
+						if st, ok := cin.(*ssa.Store); ok && st.Addr == cf.FreeVars[i] {
+							mcs = append(mcs, mc)
+							break
+						}
+					}
+				}
+			}
+			// … and calls the cell's address is given to (a factory that builds such a closure around `&cell`)
+			var handovers []ssa.Instruction
+			for _, mc := range mcs {
+				handovers = append(handovers, mc)
+			}
+			for _, r := range *cell.Referrers() {
+				if call, ok := r.(ssa.CallInstruction); ok && call.Common().StaticCallee() != nil && p.InModule(call.Common().StaticCallee()) {
+					handovers = append(handovers, call)
+				}
+			}
+			if len(handovers) == 0 {
+				continue
+			}
+			isCellLoad := func(v ssa.Value) bool {
+				u, ok := v.(*ssa.UnOp)
+				return ok && u.Op == token.MUL && u.X == cell
+			}
+			// blocks that end in a nil test of the cell
+			tests := map[*ssa.BasicBlock]*nilTest{}
+			for _, b := range fn.Blocks {
+				if t := nilTestOf(b.Instrs[len(b.Instrs)-1]); t != nil && isCellLoad(t.V) {
+					tests[b] = t
+				}
+			}
+			for _, mc := range handovers {
+				// everything reachable from the hand-over without passing a test of the cell
+				seen := map[*ssa.BasicBlock]bool{}
+				var walk func(b *ssa.BasicBlock)
+				walk = func(b *ssa.BasicBlock) {
+					if seen[b] {
+						return
+					}
+					seen[b] = true
+					if tests[b] != nil {
+						return
+					}
+					for _, s := range b.Succs {
+						walk(s)
+					}
+				}
+				walk(mc.Block())
+				n := 0
+				for _, b := range fn.Blocks {
+					if !seen[b] {
+						continue
+					}
+					ret, ok := b.Instrs[len(b.Instrs)-1].(*ssa.Return)
+					if !ok || len(ret.Results) == 0 {
+						continue
+					}
+					e := ret.Results[len(ret.Results)-1]
+					if !isErrorType(e.Type()) {
+						continue
+					}
+					n++
+					key := fmt.Sprintf("%s cell %s return#%d", p.FnKey(fn), cell.Comment, n)
+					if why := err6Fine(fn, b, e, isCellLoad, map[ssa.Value]bool{}); why != "" {
+						c.Pass(key, ret.Pos(), "returns %s", why)
+					} else {
+						c.Fail(key, ret.Pos(), "after the callback that may park an error in `%s` has been handed over (%s), this return reports a possibly-nil error without anyone having looked at `%s`: the parked error is lost", cell.Comment, p.Pos(handoverPos(mc)), cell.Comment)
+					}
+				}
+				if n == 0 {
+					c.Pass(fmt.Sprintf("%s cell %s", p.FnKey(fn), cell.Comment), mc.Pos(), "every return after the hand-over lies behind a nil test of the cell (%d tests)", len(tests))
+				}
+			}
+		}
+	}
+}
+
+// scanAdapter finds the function value fn hands to (*db.Index).Scan / ScanEq as the per-entry callback, and a lookup
+// from the adapter's captured names to the values of fn they stand for.
+func scanAdapter(p *Program, fn *ssa.Function) (*ssa.Function, func(name string) ssa.Value) {
+	cellVal := func(v ssa.Value) ssa.Value {
+		for i := 0; i < 4; i++ {
+			al, ok := v.(*ssa.Alloc)
+			if !ok {
+				break
+			}
+			sts := cellStores(al)
+			if len(sts) != 1 {
+				break
+			}
+			v = sts[0].Val
+		}
+		return v
+	}
+	for _, cs := range callsIn(fn) {
+		cal := cs.Common().StaticCallee()
+		if cal == nil || !(p.FnKey(cal) == "(*db.Index).Scan" || p.FnKey(cal) == "(*db.Index).ScanEq") {
+			continue
+		}
+		args := cs.Common().Args
+		cb := args[len(args)-1]
+		if ct, ok := cb.(*ssa.ChangeType); ok {
+			cb = ct.X
+		}
+		switch x := cb.(type) {
+		case *ssa.MakeClosure:
+			cl := x.Fn.(*ssa.Function)
+			return cl, func(name string) ssa.Value {
+				for i, fv := range cl.FreeVars {
+					if fv.Name() == name {
+						return cellVal(x.Bindings[i])
+					}
+				}
+				return nil
+			}
+		case *ssa.Call:
+			f := x.Call.StaticCallee()
+			if f == nil || !p.InModule(f) {
+				continue
+			}
+			var mc *ssa.MakeClosure
+			n := 0
+			for _, r := range returnsOf(f) {
+				n++
+				v := r.Results[0]
+				if ct, ok := v.(*ssa.ChangeType); ok {
+					v = ct.X
+				}
+				mc, _ = v.(*ssa.MakeClosure)
+			}
+			if n != 1 || mc == nil {
+				continue
+			}
+			cl := mc.Fn.(*ssa.Function)
+			return cl, func(name string) ssa.Value {
+				for i, fv := range cl.FreeVars {
+					if fv.Name() != name {
+						continue
+					}
+					v := cellVal(mc.Bindings[i])
+					if pa, ok := v.(*ssa.Parameter); ok {
+						for k, fp := range f.Params {
+							if fp == pa && k < len(x.Call.Args) {
+								return cellVal(x.Call.Args[k])
+							}
+						}
+					}
+					return v
+				}
+				return nil
+			}
+		}
+	}
+	return nil, nil
+}
+
+func handoverPos(in ssa.Instruction) token.Pos {
+	if mc, ok := in.(*ssa.MakeClosure); ok {
+		return mc.Fn.Pos()
+	}
+	return in.Pos()
+}
+
+// err6Fine: the returned error is the cell itself, or is established non-nil where it is returned.
+func err6Fine(fn *ssa.Function, at *ssa.BasicBlock, e ssa.Value, isCellLoad func(ssa.Value) bool, seen map[ssa.Value]bool) string {
+	if seen[e] {
+		return "(cycle)"
+	}
+	seen[e] = true
+	if isCellLoad(e) {
+		return "the cell itself"
+	}
+	if isNilConst(e) {
+		return ""
+	}
+	switch x := e.(type) {
+	case *ssa.UnOp:
+		if _, ok := x.X.(*ssa.Global); ok {
+			return "a package error value"
+		}
+	case *ssa.Call:
+		if cal := x.Call.StaticCallee(); cal != nil && isErrorfLike(cal) {
+			return "a freshly built error"
+		}
+	case *ssa.Phi:
+		all := "a merge of fine values"
+		for _, ed := range x.Edges {
+			if err6Fine(fn, at, ed, isCellLoad, seen) == "" {
+				all = ""
+			}
+		}
+		if all != "" {
+			return all
+		}
+	}
+	for _, b := range fn.Blocks {
+		t := nilTestOf(b.Instrs[len(b.Instrs)-1])
+		if t != nil && t.V == e && len(t.NonNil.Preds) == 1 && (t.NonNil == at || t.NonNil.Dominates(at)) {
+			return "an error tested non-nil"
+		}
+	}
+	return ""
+}
+
+// autoindexName: "" when v, as seen on the path, is Sprintf("sqlite_autoindex_%s_%d", X.Table, counter).
+func autoindexName(p *Program, t *Termer, lp *LPath, v ssa.Value, counter map[ssa.Value]bool) string {
+	call, ok := lp.PS.Resolve(v).(*ssa.Call)
+	if !ok || call.Call.StaticCallee() == nil || !isLibFunc(call.Call.StaticCallee(), "fmt", "Sprintf") {
+		return "the name is " + t.Term(v, lp.PS) + ", not a Sprintf of the automatic-index pattern"
+	}
+	f, ok := constString(call.Call.Args[0])
+	if !ok || f != "sqlite_autoindex_%s_%d" {
+		return "the format is " + t.Term(call.Call.Args[0], lp.PS) + ", not \"sqlite_autoindex_%s_%d\""
+	}
+	elems := map[int64]ssa.Value{}
+	if sl, ok := call.Call.Args[1].(*ssa.Slice); ok {
+		if al, ok := sl.X.(*ssa.Alloc); ok {
+			for _, r := range *al.Referrers() {
+				if ia, ok := r.(*ssa.IndexAddr); ok {
+					k, isK := constInt(ia.Index)
+					for _, rr := range *ia.Referrers() {
+						if st, ok := rr.(*ssa.Store); ok && isK {
+							elems[k] = st.Val
+						}
+					}
+				}
+			}
+		}
+	}
+	if len(elems) != 2 {
+		return fmt.Sprintf("the pattern gets %d arguments, not (table, counter)", len(elems))
+	}
+	tab := t.Term(stripMakeInterface(elems[0]), lp.PS)
+	if !strings.HasSuffix(reOrd.ReplaceAllString(tab, ""), ".Table") {
+		return "the first argument is " + tab + ", not the table's name"
+	}
+	n := stripMakeInterface(elems[1])
+	if !counter[n] && !counter[lp.PS.Resolve(n)] {
+		return "the second argument is " + t.Term(n, lp.PS) + ", not the automatic-index counter"
+	}
+	return ""
 }
 
 func runSkip2(c *Ctx) {
@@ -1029,6 +1326,45 @@ func runAutoIdx(c *Ctx) {
 		c.Fail("autoindex counter update", bu.Pos(), "the counter behind sqlite_autoindex_<table>_<n> is changed by something other than +1")
 	}
 	t := &Termer{P: p}
+	// the name itself: every index newCreateTable adds is called sqlite_autoindex_<table as written>_<counter>
+	nName := 0
+	for _, cs := range callsIn(fn) {
+		call, ok := cs.(*ssa.Call)
+		if !ok || call.Call.StaticCallee() == nil || p.FnKey(call.Call.StaticCallee()) != "(*db.Schema).addIndex" || len(call.Call.Args) != 4 {
+			continue
+		}
+		nName++
+		key := fmt.Sprintf("autoindex name#%d", nName)
+		// the name is made in the same iteration: start at the innermost loop around the call
+		start := fn.Blocks[0]
+		for _, h := range loopHeaders(fn) {
+			if loopBody(h)[call.Block()] && (start == fn.Blocks[0] || loopBody(start)[h]) {
+				start = h
+			}
+		}
+		paths, ok := EnumLits(start, 0, TabOpts{Termer: t, Limit: 200000,
+			Stop: func(in ssa.Instruction, ps *pathState) bool { return in == ssa.Instruction(call) }})
+		if !ok {
+			c.Undecided(key, call.Pos(), "too many paths")
+			continue
+		}
+		bad, arrivals := "", 0
+		for _, lp := range paths {
+			if lp.Stop == nil {
+				continue
+			}
+			arrivals++
+			if why := autoindexName(p, t, lp, call.Call.Args[2], seen); why != "" {
+				bad = why + " on path [" + pathDesc(lp) + "]"
+				break
+			}
+		}
+		if arrivals == 0 {
+			c.Undecided(key, call.Pos(), "no path reaches the call")
+			continue
+		}
+		c.Check(bad == "", key, call.Pos(), "the index is named fmt.Sprintf(\"sqlite_autoindex_%%s_%%d\", <the table's name as written>, <the counter>) on all %d arrivals %s", arrivals, map[bool]string{true: "", false: "— " + bad + ": IndexedSelect and the schema would know the index under a name SQLite does not use"}[bad == ""])
+	}
 	// the converse of the increment obligations below: a constraint that made an index of its own advances the counter
 	// before the loop goes on to the next constraint (or the function returns)
 	nGuard := 0
@@ -1126,13 +1462,8 @@ func runAutoIdx(c *Ctx) {
 				}
 				if wr && guard != nil && guard.Name == "(*db.Schema).setPK" {
 					// WITHOUT ROWID: the primary key is an index of its own (it is the table) and uses up a number —
-					// unless it takes over the index of an earlier, equivalent UNIQUE, which already has one. A
-					// column's own PRIMARY KEY (its key is a literal of that one column) cannot meet an earlier
-					// equivalent: the constraints of earlier columns name other columns and this column's UNIQUE is
-					// handled after its PRIMARY KEY.
-					if len(guard.Args) == 2 && !strings.Contains(guard.Args[1], "call:") {
-						continue
-					}
+					// unless it takes over the index of an earlier, equivalent UNIQUE, which already has one. That
+					// holds for a column's own PRIMARY KEY as well: its UNIQUE may be written first.
 					res := ""
 					if v, isVal := guard.Instr.(ssa.Value); isVal && v.Type() != nil {
 						if b, isB := v.Type().Underlying().(*types.Basic); isB && b.Kind() == types.Bool {
